@@ -1,7 +1,90 @@
-/- C03 — placeholder while the theorems are being written. -/
-import LA.Model.Uu
-import LA.Model.B64
-import LA.Model.UuRead
+/-
+C03 — Filter (compression/encoding) round trip is the identity.
+
+Part 1 (this section): the two encoders libarchive implements entirely itself
+and their common read filter.  Models: `LA.LineFilter` + `LA.Uu` / `LA.B64`
+(archive_write_add_filter_uuencode.c, archive_write_add_filter_b64encode.c) and
+`LA.UuRead` (archive_read_support_filter_uu.c).  Helper lemmas:
+LA/Lemmas/LineFilter.lean, UuCodec.lean, UuFlow.lean, UuStream.lean, UuSpecs.lean.
+
+Quantifiers as in the property: all byte streams, all partitions of the stream
+into writes, all `bytes_per_block` settings, all `mode` values, all non-empty
+printable `name`s whose `begin` line fits the reader's line limit (`NameOk`; a
+name with a byte outside 0x20..0x7e is the recorded finding C03-uu-name-nonascii),
+and — on the read side — every sequence of read-ahead windows (`first`, `orc`),
+provided the first window reaches beyond the `begin` line, which is what the
+bidder leaves buffered (`bidder_recognises_own_output` needs two more lines).
+-/
+import LA.Lemmas.UuSpecs
 namespace LA.C03
-theorem placeholder : True := trivial
+open LA.UuRead LA.LineFilter LA.Gen.UuTables
+
+/-- The uuencode write filter: the bytes passed downstream are `encStream` of the
+concatenation of the writes — whatever the chunking and `bytes_per_block`. -/
+theorem uu_encode_chunking_independent (bpb mode : Nat) (name : List Nat) (chunks : List (List Nat)) :
+    LA.Uu.encode bpb mode name chunks = encStream LA.Uu.codec mode name chunks.flatten :=
+  run_output LA.Uu.codec bpb mode name chunks
+
+theorem b64_encode_chunking_independent (bpb mode : Nat) (name : List Nat) (chunks : List (List Nat)) :
+    LA.B64.encode bpb mode name chunks = encStream LA.B64.codec mode name chunks.flatten :=
+  run_output LA.B64.codec bpb mode name chunks
+
+/-- Two chunkings of the same bytes (and two block sizes) give the same output. -/
+theorem encode_chunking_independent (bpb1 bpb2 mode : Nat) (name : List Nat) (c1 c2 : List (List Nat))
+    (h : c1.flatten = c2.flatten) :
+    LA.Uu.encode bpb1 mode name c1 = LA.Uu.encode bpb2 mode name c2 ∧
+    LA.B64.encode bpb1 mode name c1 = LA.B64.encode bpb2 mode name c2 := by
+  simp [uu_encode_chunking_independent, b64_encode_chunking_independent, h]
+
+example : ([[1, 2], [], [3]] : List (List Nat)).flatten = [[1], [2, 3]].flatten := by decide
+
+/-- Every block the write loop hands to the next filter before `close` has exactly
+`bs` bytes (`while (archive_strlen(&state->encoded_buff) >= state->bs)`). -/
+theorem flush_blocks_exact (bs : Nat) (buf : List Nat) : ∀ b ∈ (flushLoop bs buf).2, b.length = bs :=
+  flushLoop_blocks bs buf
+
+/-- **uuencode → uudecode is the identity**, for every chunking of the writes and
+every sequence of read windows. -/
+theorem uu_roundtrip (bpb mode : Nat) (name x : List Nat) (chunks : List (List Nat)) (first : Nat) (orc : List Nat)
+    (hx : chunks.flatten = x) (hb : Bytes x) (hn : NameOk name)
+    (hfirst : (header LA.Uu.codec mode name).length ≤ first) :
+    decode first orc (LA.Uu.encode bpb mode name chunks) = .eof x := by
+  rw [uu_encode_chunking_independent, hx]
+  exact stream_roundtrip (uuSpec mode name hn) x hb first orc hfirst
+
+/-- **b64encode → uudecode is the identity**, likewise. -/
+theorem b64_roundtrip (bpb mode : Nat) (name x : List Nat) (chunks : List (List Nat)) (first : Nat) (orc : List Nat)
+    (hx : chunks.flatten = x) (hb : Bytes x) (hn : NameOk name)
+    (hfirst : (header LA.B64.codec mode name).length ≤ first) :
+    decode first orc (LA.B64.encode bpb mode name chunks) = .eof x := by
+  rw [b64_encode_chunking_independent, hx]
+  exact stream_roundtrip (b64Spec mode name hn) x hb first orc hfirst
+
+/-- Non-vacuity: the hypotheses hold for the default name "-" (header of 12 and 19
+bytes), three bytes written one at a time, and a first window of 13 / 20 bytes. -/
+example : NameOk [45] ∧ Bytes [0, 255, 10] ∧ ([[0], [255], [10]] : List (List Nat)).flatten = [0, 255, 10] ∧
+    (header LA.Uu.codec 420 [45]).length ≤ 12 ∧ (header LA.B64.codec 420 [45]).length ≤ 19 := by
+  refine ⟨⟨by decide, by intro c hc; simp at hc; omega, by decide⟩, by intro b hb; simp at hb; omega,
+    by decide, by decide, by decide⟩
+
+/-- `la_b64_encode` never writes a line longer than 76 characters plus the newline;
+`uu_encode` never one longer than 61 + 1. -/
+theorem b64_line_len (p : List Nat) (h : p.length ≤ b64LBytes) : (LA.B64.encLine p).length ≤ 76 + 1 := by
+  have h57 : p.length ≤ 57 := h
+  simp only [LA.B64.encLine, List.length_append, b64_triples_length, List.length_cons, List.length_nil]
+  omega
+
+theorem uu_line_len (p : List Nat) (h : p.length ≤ uuLBytes) : (LA.Uu.encLine p).length ≤ 61 + 1 := by
+  have h45 : p.length ≤ 45 := h
+  simp only [LA.Uu.encLine, List.length_append, List.length_cons, triples_length, List.length_nil]
+  omega
+
+/-- The body of the stream is made of such lines: one per `LBYTES` input bytes. -/
+theorem body_is_lines (c : Codec) (x : List Nat) :
+    encAll c x = ((pieces c.lbytes c.lpos x).map c.encLine).flatten ∧
+    ∀ p ∈ pieces c.lbytes c.lpos x, 0 < p.length ∧ p.length ≤ c.lbytes :=
+  ⟨encAll_pieces c x, fun p hp => ⟨(pieces_mem c.lbytes c.lpos x p hp).1, (pieces_mem c.lbytes c.lpos x p hp).2.1⟩⟩
+
+example : (LA.B64.encLine (List.replicate 57 255)).length = 77 := by decide
+
 end LA.C03
